@@ -8,9 +8,9 @@ TECH = 'machine-checked proof in Coq 8.16 (model + theorems) + fail-closed trans
 ORACLES = {
     'C01': 'multi-field requests on one pipeline object in several orders against single-field values',
     'C02': 'multi-field request order; every operand observed before and after composing',
-    'C03': 'key mappings of Join / GroupBy / Split computed once per pipeline object; HashDigest executes exactly what get_hash executes; one and two cached columns: no function twice per call beyond findings F9 / F10; a decorated function runs once per call',
-    'C04': 'every call of every history against the cache-free pipeline, column-cache histories and id-order variants included',
-    'C05': 'families of dataset pipelines differing in one ingredient: equal node-hash digests mean equal values',
+    'C03': 'key mappings of Join / GroupBy / Split computed once per pipeline object; HashDigest executes exactly what get_hash executes; one and two cached columns: no function twice per call beyond findings F9 / F10; a decorated function runs once per call; request sequences through CacheColumns against Model/Columns.v (calls of the user functions in order)',
+    'C04': 'every call of every history against the cache-free pipeline, column-cache histories and id-order variants included; request sequences through CacheColumns (failing functions, unknown keys, rebuilt pipelines) against Model/Columns.v',
+    'C05': 'families of dataset pipelines differing in one ingredient: equal node-hash digests mean equal values; a column cache and a disk cache of a dependent field over the same folders in both orders (finding F11)',
     'C06': 'families of sub-pipeline variants: equal static hashes / node-hash digests mean equal functions / values',
     'C07': 'digests of a field and of ids under 14 neutral rewrites in 3 interpreters; a column cache is found again by a rebuilt pipeline whose dataset lists its ids in another order',
     'C08': 'table sizes and recency after every operation (stored None values and pickle round trips included); key mappings computed once; a column-cache hit runs nothing; column caches found again by a rebuilt pipeline',
@@ -146,7 +146,7 @@ def main():
                                        'property theorems (Props/), generated case shards (Run/)'}],
         'checks': [], 'not_applicable': [],
         'notes': 'Six unguarded "fix:" commits in /repo (F2 624b02f, F1 155c61c, F4a 7524fb1, F8-truncation a19c1d0, F6 4bbd446, F5 2f0c7d8) and the '
-                 'known findings F3, F4b, F8, F9, F10 are recorded in known_findings.json; see DESIGN.md sections 7 and 11.',
+                 'known findings F3, F4b, F8, F9, F10, F11 are recorded in known_findings.json; see DESIGN.md sections 7 and 11.',
     }
     for p in props:
         pid = p['id']
